@@ -65,6 +65,9 @@ def engine(pid, what, ref):
 
 
 engine("C01", "Worker limit and distinct worker slots per step.", "5/C01")
+engine("C02", "Exactly-once delivery to every accepting step, targets honoured, wait results not re-delivered, UnhandledEvent exactly for orphans.", "5/C02")
+engine("C12", "ctx.to_dict -> JSON -> Context.from_dict at EVERY prefix of explored schedules vs the uninterrupted continuation; stability of the serialized form.", "5/C12")
+engine("C31", "Timeout names the active steps and never hits a finished run; cancel stops further steps; cancelled context serializable and resumable.", "5/C31")
 engine("C03", "Queued work runs at full capacity; idle announced only when nothing can happen without external input.", "5/C03")
 engine("C05", "Retry budgets: executions = max(n,1), non-retryable once, stop_after_delay by real elapsed time, retry_info numbering, reported attempts/elapsed.", "5/C05")
 engine("C06", "k-th retry starts no earlier than the documented delay of the wait strategy (tenacity indexing).", "5/C06")
